@@ -152,8 +152,8 @@ where
 
     let mag = parse_digits_u128(digits, radix).ok_or_else(invalid)?;
     let val_i128: i128 = if neg {
-        let mag_i128: i128 = mag.try_into().map_err(|_| invalid())?;
-        mag_i128.checked_neg().ok_or_else(invalid)?
+        // Negate in the unsigned domain: the magnitude 2^127 (i128::MIN) has no positive i128.
+        0i128.checked_sub_unsigned(mag).ok_or_else(invalid)?
     } else {
         mag.try_into().map_err(|_| invalid())?
     };
